@@ -125,6 +125,30 @@ Theorem model_multi_satisfies_spec_partial :
 Proof. exact ProofsC.model_multi_satisfies_spec_partial. Qed.
 Print Assumptions model_multi_satisfies_spec_partial.
 
+(* which shard groups a query reads (ShardGroupsByTimeRange / Overlaps / Deleted), for every
+   metadata history (odd-sized groups, truncated groups with successors, deleted groups) and
+   every range: every live group that can hold a point of the range is selected - a
+   truncated group counts with its nominal [start, end) - ... *)
+Theorem overlap_complete :
+  forall (tmin tmax : Z) (gs : list sgroup) (g : sgroup) (t : Z),
+  In g gs -> sg_deleted g = false -> (tmin <= t <= tmax)%Z -> can_hold g t ->
+  In g (groups_overlapping tmin tmax gs) /\
+  (forall s, In s (sg_shards g) -> In s (view_of_groups tmin tmax gs)).
+Proof.
+  intros tmin tmax gs g t Hin Hd Ht Hc.
+  pose proof (overlap_complete_lemma tmin tmax gs g t Hin Hd Ht Hc) as H. split; [exact H|].
+  intros s Hs. apply view_of_groups_shards. exists g. split; assumption.
+Qed.
+Print Assumptions overlap_complete.
+
+(* ... and none outside: a selected (non-empty) group is live and can hold a point of the range *)
+Theorem overlap_sound :
+  forall (tmin tmax : Z) (gs : list sgroup) (g : sgroup),
+  (tmin <= tmax)%Z -> (sg_start g < sg_end g)%Z -> In g (groups_overlapping tmin tmax gs) ->
+  In g gs /\ sg_deleted g = false /\ exists t, (tmin <= t <= tmax)%Z /\ can_hold g t.
+Proof. exact overlap_sound_lemma. Qed.
+Print Assumptions overlap_sound.
+
 (* pinned tree, repaired by the fix: commits — the unrepaired client turned an error reply
    into an empty stream *)
 Theorem remote_error_surfaces_unpatched_refuted :
@@ -188,4 +212,11 @@ Example ex_multi_source :
   (rm_groups st, map fst res) =
   ([(0, [(2, [mkShard 10 [2]]); (3, [mkShard 11 [3]])]); (1, [(3, [mkShard 20 [3]])])],
    [QOk [10; 11]; QOk [2]; QOk [20]]).
+Proof. vm_compute. reflexivity. Qed.
+
+(* a group truncated at 400 with successor [400,1000): a query starting at 400 reads both *)
+Example ex_truncated_group_still_read :
+  map sid (view_of_groups 400 900 [mkSG 0 1000 (Some 400%Z) false [mkShard 1 [2]];
+                                   mkSG 400 1000 None false [mkShard 2 [3]];
+                                   mkSG 1000 1700 None true [mkShard 3 [2]]]) = [1; 2]%N.
 Proof. vm_compute. reflexivity. Qed.
